@@ -217,6 +217,70 @@ impl DiskCache {
 //@ before `return Ok(Some(result_buf));`
             proof { /*@C12*/ assert(hit_from(cache_item, header.chunk_byte_indices@, *range, result_buf)); assert(is_hit(*range, result_buf)); }
 //@ end
+
+// the public entry point (`impl ChunkCache for DiskCache`): a plain forward, so it carries get_impl's contract
+//@ extract chunk_cache/src/disk.rs in `impl ChunkCache for DiskCache` fn get
+//@ ret r
+//@ contract
+        ensures /*@C12*/ r matches Ok(Some(cr)) ==> is_hit(*range, cr),
+//@ end
+}
+
+// =====================================================================================================================
+// The real `VerificationCell<T>` (chunk_cache/src/disk/cache_item.rs), checked against the flag discipline used above.
+// `AtomicBool` stub: every flag is created with a proposition attached (ghost `prop` = its truth; files of tracked items do not
+// change while the cache is open, so it is a constant).  A load may return anything but `true` only if the proposition holds;
+// a store of `true` requires it.  That is the whole interface contracts can give for an atomic shared between threads.
+// =====================================================================================================================
+struct AtomicBool { prop: Ghost<bool> }
+enum Ordering { Relaxed, Release, Acquire, AcqRel, SeqCst }
+impl AtomicBool {
+    #[verifier::external_body]
+    fn new(v: bool, Ghost(p): Ghost<bool>) -> (r: AtomicBool) requires v ==> p ensures r.prop@ == p { unimplemented!() }
+    #[verifier::external_body]
+    fn load(&self, order: Ordering) -> (r: bool) ensures r ==> self.prop@ { unimplemented!() }
+    #[verifier::external_body]
+    fn store(&self, v: bool, order: Ordering) requires v ==> self.prop@ { unimplemented!() }
+}
+// the proposition a cell's flag stands for; for `T = CacheItem` it is `flag_inv` (file crc == checksum in the name)
+uninterp spec fn cell_inv<T>(inner: T) -> bool;
+
+//@ extract chunk_cache/src/disk/cache_item.rs struct VerificationCell
+//@ end
+impl<T> VerificationCell<T> {
+    spec fn wf(&self) -> bool { self.verification.prop@ == cell_inv(self.inner) }
+}
+impl<T: std::fmt::Debug + Clone> VerificationCell<T> {
+//@ extract chunk_cache/src/disk/cache_item.rs in `impl<T: Debug + Clone> VerificationCell<T>` fn new
+//@ ret r
+//@ optsubst `AtomicBool::new(verified)` => `AtomicBool::new(verified, Ghost(cell_inv(inner)))` :: ghost instrumentation only: names the proposition attached to the new flag (erased at run time)
+//@ contract
+        requires /*@C12*/ verified ==> cell_inv(inner),
+        ensures r.wf(), r.inner == inner,
+//@ end
+//@ extract chunk_cache/src/disk/cache_item.rs in `impl<T: Debug + Clone> VerificationCell<T>` fn new_unverified
+//@ ret r
+//@ contract
+        ensures r.wf(), r.inner == inner,
+//@ end
+//@ extract chunk_cache/src/disk/cache_item.rs in `impl<T: Debug + Clone> VerificationCell<T>` fn new_verified
+//@ ret r
+//@ contract
+        requires /*@C12*/ cell_inv(inner),      // put_impl: U-CACHEPUT proves it for the item it just wrote
+        ensures r.wf(), r.inner == inner,
+//@ end
+//@ extract chunk_cache/src/disk/cache_item.rs in `impl<T: Debug + Clone> VerificationCell<T>` fn verify
+//@ optsubst `std::sync::atomic::Ordering::Release` => `Ordering::Release` :: R11 stub path
+//@ contract
+        requires self.wf(), /*@C12*/ cell_inv(self.inner),
+//@ end
+//@ extract chunk_cache/src/disk/cache_item.rs in `impl<T: Debug + Clone> VerificationCell<T>` fn is_verified
+//@ ret r
+//@ optsubst `std::sync::atomic::Ordering::Relaxed` => `Ordering::Relaxed` :: R11 stub path
+//@ contract
+        requires self.wf(),
+        ensures /*@C12*/ r ==> cell_inv(self.inner),
+//@ end
 }
 } // verus!
 fn main() {}
